@@ -231,7 +231,7 @@ def generate(repo):
         raise ExtractError('include/stddef.h: offsetof has an unknown shape: ' + mm.group(1))
 
     o = HEADER.format(tool='declspec.py', src='parse.c (declspec, align_down), type.c (primitive types), codegen.c (align_to)')
-    o += 'namespace ChibiVerif.Gen.Declspec\n\n'
+    o += 'set_option linter.unusedVariables false\nnamespace ChibiVerif.Gen.Declspec\n\n'
     o += '/-- the built-in type-specifier keywords tested in the ladder of `declspec` -/\n'
     o += 'inductive Kw where\n' + ''.join(f'  | {KW_LEAN[k]}\n' for k, _, _ in kws) + '  deriving DecidableEq, Repr\n\n'
     o += 'def Kw.all : List Kw := [' + ', '.join('.' + KW_LEAN[k] for k, _, _ in kws) + ']\n\n'
